@@ -42,7 +42,7 @@ func (c09) Runs(tier string) int {
 	if tier == "thorough" {
 		return 40000
 	}
-	return 900
+	return 2000
 }
 
 func (c09) Gen(seed uint64, run int, tier string) *core.Case {
